@@ -85,7 +85,12 @@ fn config(rng: &mut Rng, variant: u64) -> (DbCfg, &'static str) {
 			col(false, false, true, true, comp(rng)),
 		]),
 		5 => {
-			let mut c = DbCfg::new(vec![col(false, true, false, false, CompressionType::NoCompression)]);
+			let mut cols = vec![col(false, true, false, false, CompressionType::NoCompression)];
+			if rng.chance(1, 3) {
+				// a reference-counted column growing its index as well
+				cols.push(col(false, true, true, true, CompressionType::NoCompression));
+			}
+			let mut c = DbCfg::new(cols);
 			c.salt = Some([0u8; 32]);
 			c
 		},
